@@ -474,7 +474,11 @@ class Interp:
             kw['at'] = self.T(opts['at'])
         if opts.get('volatile'):
             kw['volatile'] = True
-        coro = self.activity(child, script)
+        if opts.get('bare') is not None:
+            # the payload is a bare awaitable (a delay, a condition, another task ...), not a coroutine of the scenario
+            coro = self.ctx.tasks[opts['bare'][1]] if opts['bare'][0] == 'TASK' else self.cond(opts['bare'])
+        else:
+            coro = self.activity(child, script)
         task = scope.do(coro, **kw)
         sname = opts.get('scope') or self.scope_stack[act][-1][0]
         self.children_of.setdefault(sname, []).append(child)
